@@ -7,7 +7,9 @@ import (
 	"os"
 	"path/filepath"
 	"runtime"
+	"runtime/debug"
 	"strings"
+	"syscall"
 	"time"
 
 	shared "github.com/aquilax/hranoprovod-cli/v3"
@@ -68,6 +70,13 @@ func (j *jitterReader) Read(p []byte) (int, error) {
 func chanTrace(e *env) error {
 	runs := e.argInt("runs", 300)
 	scratch := os.Getenv("VERIF_SCRATCH")
+	// a Parser value whose previous run has completely finished (consumer drained it, producer exited) may be used
+	// again for the next input: it must behave like a fresh one
+	var reusable parser.Parser
+	haveReusable := false
+	var reusableCfg parser.Config
+	reused, fifos := 0, 0
+	defer func() { e.sum.Extra["parser_values_reused"] = reused; e.sum.Extra["named_pipes_read"] = fifos }()
 	for r := 0; r < runs; r++ {
 		// scenario: n records, then nothing / a malformed line / a read failure
 		nNodes := e.rng.Intn(5)
@@ -139,17 +148,50 @@ func chanTrace(e *env) error {
 			}
 		}
 		p := parser.NewParser(pcfg)
+		if haveReusable && reusableCfg == pcfg && e.rng.Intn(2) == 0 {
+			p = reusable
+			reused++
+		}
+		haveReusable = false
 		exited := make(chan struct{})
+		// the producer goroutine: a panic of the code under test is a violation, not the end of the driver
+		producer := func(fn func()) {
+			defer close(exited)
+			defer func() {
+				if pv := recover(); pv != nil {
+					e.mismatch("panic-in-code-under-test", "parser/parser.go", fmt.Sprintf("the producer goroutine panics: %v", pv), map[string]interface{}{"input": data, "entry": entry, "policy": policy, "stack": string(debug.Stack())})
+				}
+			}()
+			fn()
+		}
 		switch entry {
 		case "stream":
 			rd := &jitterReader{data: []byte(data), rng: rand.New(rand.NewSource(e.rng.Int63())), failAt: failAt}
-			go func() { p.ParseStream(rd); close(exited) }()
+			go producer(func() { p.ParseStream(rd) })
 		case "fileOk":
 			path := filepath.Join(scratch, "chan-input.yaml")
-			writeFile(path, data)
-			go func() { p.ParseFile(path); close(exited) }()
+			if r%3 == 0 {
+				// a named pipe: a file whose size is not known in advance
+				path = filepath.Join(scratch, fmt.Sprintf("chan-fifo-%d", r))
+				if err := syscall.Mkfifo(path, 0o600); err == nil {
+					fifos++
+					go func(path, data string) {
+						if f, err := os.OpenFile(path, os.O_WRONLY, 0); err == nil {
+							io.WriteString(f, data)
+							f.Close()
+						}
+						os.Remove(path)
+					}(path, data)
+				} else {
+					path = filepath.Join(scratch, "chan-input.yaml")
+					writeFile(path, data)
+				}
+			} else {
+				writeFile(path, data)
+			}
+			go producer(func() { p.ParseFile(path) })
 		case "fileOpenFails":
-			go func() { p.ParseFile(filepath.Join(scratch, "no-such-dir", "missing.yaml")); close(exited) }()
+			go producer(func() { p.ParseFile(filepath.Join(scratch, "no-such-dir", "missing.yaml")) })
 		}
 		e.emitEv("Init", map[string]interface{}{"items": items, "final": final, "entry": entry, "policy": policy, "id": r})
 		crng := rand.New(rand.NewSource(e.rng.Int63()))
@@ -192,6 +234,7 @@ func chanTrace(e *env) error {
 			select {
 			case <-exited:
 				e.emitEv("ProducerExited", map[string]interface{}{})
+				reusable, reusableCfg, haveReusable = p, pcfg, true
 			case <-time.After(3 * time.Second):
 				e.emitEv("ProducerBlocked", map[string]interface{}{})
 			}
